@@ -273,7 +273,9 @@ fn run_history(c: &Case, cx: &mut Cx) -> Verdict {
         if (wd.0, wd.1) != (bd.0, bd.1) {
             cx.nt("carry_across_month_or_year");
         }
-        let now_dt = dt_of_secs(clock);
+        // a real clock also shows fractions of a second; results are whole minutes all the same
+        let sub = [0i128, 1, 500_000_000, 999_999_999][((clock as u64 ^ (clock as u64 >> 5) ^ i as u64) % 4) as usize];
+        let now_dt = mk_dt(clock as i128 * 1_000_000_000 + sub);
         let mut want_other: Option<i64> = None;
         if let Some((_, so, lo)) = &other {
             let base_o = match lo {
